@@ -86,6 +86,42 @@ def moduleCall {α} (io : KIO) (cfg : KKey) (f : α → α) (s : KSample α) : O
     | none => none
   | _, _ => none
 
+/-! ### call histories on a persistent instance -/
+
+/-- a transform instance as a state machine: `σ` = whatever the instance keeps between calls -/
+structure Module (σ ι ο : Type) where
+  init : σ
+  step : σ → ι → σ × ο
+
+def Module.run {σ ι ο} (m : Module σ ι ο) : σ → List ι → List ο
+  | _, [] => []
+  | s, x :: xs => (m.step s x).2 :: m.run (m.step s x).1 xs
+
+/-- what a *fresh* instance answers to each sample -/
+def Module.fresh {σ ι ο} (m : Module σ ι ο) (xs : List ι) : List ο := xs.map fun x => (m.step m.init x).2
+
+/-- regression witness (seeded C10-5): a `CropKspace` that resolves a 2-element crop once and keeps
+`(kspace.shape[1],) + crop` — the slice count of the *first* sample — in `self._crop_shape`.
+Input = slice count of the sample, output = slice entry of the crop shape used. -/
+def cachedCropShape : Module (Option Int) Int Int where
+  init := none
+  step := fun st slices =>
+    match st with
+    | none => (some slices, slices)
+    | some c => (some c, c)
+
+/-- the k-space module as a state machine without state: every call is `moduleCall` -/
+def kspaceModule {α} (io : KIO) (cfg : KKey) (f : α → α) : Module Unit (KSample α) (Option (KSample α)) where
+  init := ()
+  step := fun _ s => ((), moduleCall io cfg f s)
+
+/-- `torch.flip(x, dims)` (the exact operator pair used by the correspondence of the module ops) -/
+def flipAxes (dims : List Nat) (t : Tensor Int) : Tensor Int :=
+  dims.foldl (fun acc d => acc.alongAxis d List.reverse) t
+
+/-- `dim = self.spatial_dims.TWO_D if kspace.ndim == 4 else self.spatial_dims.THREE_D` of a `DirectTransform` -/
+def spatialDims (rank : Nat) : List Nat := if rank = 4 then [1, 2] else [2, 3]
+
 /-! ### crop shape of `CropKspace` for every argument form -/
 
 /-- `crop` given as a string that parses as an integer list / tuple (`IntegerListOrTupleString`), as a string naming a
@@ -111,30 +147,6 @@ def cropShapeResolve (form : CropForm) (ndim : Int) (crop keyVal : List Int) (sl
 slice / time axis of 5-D k-space alone whatever the form it was written in -/
 def cropShapeSpec (ndim : Int) (crop : List Int) (slices : Int) : List Int :=
   if ndim = 5 ∧ crop.length = 2 then slices :: crop else crop
-
-/-! ### call histories on a persistent instance -/
-
-/-- a transform instance as a state machine: `σ` = whatever the instance keeps between calls -/
-structure Module (σ ι ο : Type) where
-  init : σ
-  step : σ → ι → σ × ο
-
-def Module.run {σ ι ο} (m : Module σ ι ο) : σ → List ι → List ο
-  | _, [] => []
-  | s, x :: xs => (m.step s x).2 :: m.run (m.step s x).1 xs
-
-/-- what a *fresh* instance answers to each sample -/
-def Module.fresh {σ ι ο} (m : Module σ ι ο) (xs : List ι) : List ο := xs.map fun x => (m.step m.init x).2
-
-/-- regression witness (seeded C10-5): a `CropKspace` that resolves a 2-element crop once and keeps
-`(kspace.shape[1],) + crop` — the slice count of the *first* sample — in `self._crop_shape`.
-Input = slice count of the sample, output = slice entry of the crop shape used. -/
-def cachedCropShape : Module (Option Int) Int Int where
-  init := none
-  step := fun st slices =>
-    match st with
-    | none => (some slices, slices)
-    | some c => (some c, c)
 
 /-! ### predicates on the translated structural tables -/
 
